@@ -273,6 +273,19 @@ def recMicroLegacy : RecMicroFn := fun cfg pc s l =>
   | .ret => (s, l, .ok .done)
   | _ => (s, l, .ok .done)
 
+/-- a plausible-looking variant that is **wrong** (kept for the counter-example and as the
+harness' self-test mutant): the scans run before the write lock is taken, so the count
+written under the lock can be stale -/
+def recMicroScanFirst : RecMicroFn := fun cfg pc s l =>
+  match pc with
+  | .scan => (s, { l with scanN := s.kv.nodes.length, scanE := s.kv.edges.length }, .ok .lock)
+  | .lock => (s, l, .ok .count)
+  | .count =>
+      if !cfg.registered then (s, l, .error .notFound)
+      else ({ s with usageN := l.scanN, usageE := l.scanE }, l, .ok .ret)
+  | .ret => (s, l, .ok .done)
+  | _ => (s, l, .ok .done)
+
 structure Impl where
   micro : MicroFn
   start : Op → Pc
@@ -282,6 +295,7 @@ structure Impl where
 
 def fixed : Impl := ⟨micro, start, recover, recMicro, .lock⟩
 def legacy : Impl := ⟨microLegacy, startLegacy, recoverLegacy, recMicroLegacy, .scan⟩
+def scanFirst : Impl := ⟨micro, start, recover, recMicroScanFirst, .scan⟩
 
 /-! ### one call, sequentially: the states at its hook points, the final state, the result -/
 
